@@ -90,6 +90,9 @@ func CreateX509MerkleTreeLeaf(cert ASN1Cert, timestamp uint64) *MerkleTreeLeaf {
 
 // MerkleTreeLeafFromRawChain generates a MerkleTreeLeaf from a chain (in DER-encoded form) and timestamp.
 func MerkleTreeLeafFromRawChain(rawChain []ASN1Cert, etype LogEntryType, timestamp uint64) (*MerkleTreeLeaf, error) {
+	if len(rawChain) == 0 {
+		return nil, fmt.Errorf("no certificates in chain")
+	}
 	// Need at most 3 of the chain
 	count := 3
 	if count > len(rawChain) {
